@@ -194,6 +194,9 @@ def run(ctx: core.Ctx):
 
 def replay(ctx, path):
     rp = json.load(open(path))["replay"]
+    if rp.get("path") == "b2":
+        from .. import b2check
+        return b2check.replay_b2(rp, ["C10", "C09"])
     if rp.get("path") == "typed":
         S = L3Session()
         i = S.new(rp["class"])
